@@ -409,8 +409,10 @@ func (s *Module) defineSyncStage() error {
 	}
 
 	if s.syncStage == headersSynced|blocksSynced|mptSynced {
-		s.log.Info("state is in sync, starting regular blocks processing")
-		s.syncStage = inactive
+		// All the data is collected, but the node was stopped before the state
+		// jump was started (otherwise Init wouldn't have reached this point):
+		// perform the jump now.
+		s.checkSyncIsCompleted()
 	}
 	return nil
 }
